@@ -636,6 +636,20 @@ func (c *TermCtx) Add(a, b *Term) *Term {
 	if a.IsConst() {
 		a, b = b, a
 	}
+	// (x - y) + y = x
+	if a.op == OpSub && a.a[1] == b {
+		return a.a[0]
+	}
+	if b.op == OpSub && b.a[1] == a {
+		return b.a[0]
+	}
+	// (x + k1) + (y - x)... not needed; ((x - y) + k) + y = x + k
+	if a.op == OpAdd && a.a[1].IsConst() && a.a[0].op == OpSub && a.a[0].a[1] == b {
+		return c.Add(a.a[0].a[0], a.a[1])
+	}
+	if b.op == OpAdd && b.a[1].IsConst() && b.a[0].op == OpSub && b.a[0].a[1] == a {
+		return c.Add(b.a[0].a[0], b.a[1])
+	}
 	if b.IsConst() {
 		if b.c == 0 {
 			return a
